@@ -47,25 +47,25 @@ Definition Dgrad (v : varR) (x c : valueR) : valueR :=
 
 Definition dim (v : varR) : nat := match v_kind v with KScalar => 1 | KQuat => 4 | _ => 3 end.
 
-(* exponent of a hill centred at c, seen from x:  sum_i D_i(x_i, c_i) / sigma_i^2 *)
-Fixpoint Qexp (vs : list varR) (x c : list valueR) : R :=
-  match vs, x, c with
-  | v :: vs', xi :: x', ci :: c' => D v xi ci / (v_sigma v * v_sigma v) + Qexp vs' x' c'
-  | _, _, _ => 0
+(* exponent of a hill centred at c with widths sg, seen from x:  sum_i D_i(x_i, c_i) / sigma_i^2 *)
+Fixpoint Qexp (vs : list varR) (sg : list R) (x c : list valueR) : R :=
+  match vs, sg, x, c with
+  | v :: vs', si :: sg', xi :: x', ci :: c' => D v xi ci / (si * si) + Qexp vs' sg' x' c'
+  | _, _, _, _ => 0
   end.
 
 (* the kernel as implemented: a Gaussian, set to zero when the exponent exceeds 23 *)
 Definition gauss (q : R) : R := if Rlt_dec 23 q then 0 else exp (- (1 / 2) * q).
 
 (* energy of hill h at x *)
-Definition K (vs : list varR) (h : hillR) (x : list valueR) : R := h_W h * gauss (Qexp vs x (h_c h)).
+Definition K (vs : list varR) (h : hillR) (x : list valueR) : R := h_W h * gauss (Qexp vs (h_s h) x (h_c h)).
 
 (* component j of the force of hill h on variable k at x: minus the partial derivative of K *)
 Definition Fk (vs : list varR) (h : hillR) (x : list valueR) (k j : nat) : R :=
-  match nth_error vs k, nth_error x k, nth_error (h_c h) k with
-  | Some v, Some xi, Some ci =>
-      h_W h * gauss (Qexp vs x (h_c h)) * (nth j (Dgrad v xi ci) 0 / (2 * (v_sigma v * v_sigma v)))
-  | _, _, _ => 0
+  match nth_error vs k, nth_error (h_s h) k, nth_error x k, nth_error (h_c h) k with
+  | Some v, Some si, Some xi, Some ci =>
+      h_W h * gauss (Qexp vs (h_s h) x (h_c h)) * (nth j (Dgrad v xi ci) 0 / (2 * (si * si)))
+  | _, _, _, _ => 0
   end.
 
 Fixpoint Rsum (l : list R) : R := match l with [] => 0 | a :: r => a + Rsum r end.
@@ -130,7 +130,7 @@ Section Spec.
     mkS (s_tab s) (s_pend s) (next_geom (s_geom s) x).
   Definition spec_dep (s : sstate) (i : inR) : sstate :=
     if eligible i
-    then mkS (s_tab s) (s_pend s ++ [mkHill (i_it i) (spec_height s i) (i_x i)]) (s_geom s)
+    then mkS (s_tab s) (s_pend s ++ [mkHill (i_it i) (spec_height s i) (i_x i) (c_sigmas c)]) (s_geom s)
     else s.
   Definition spec_tabulate (s : sstate) : sstate :=
     if c_use_grids c then mkS (s_tab s ++ s_pend s) [] (s_geom s) else s.
@@ -154,10 +154,13 @@ Section Spec.
     match e with
     | EStep i => spec_step s i | ESave => spec_tabulate s | ERestart r => spec_restart s r
     | EReload => spec_tabulate s
+    | EReconf _ => spec_restart s None
     end.
-
-  Definition spec_run (hist : list eventR) : sstate := fold_left spec_event hist (mkS [] [] (c_geom0 c)).
 End Spec.
+
+(* the history is followed with the configuration in force at each event (hill widths, weight and frequency may change
+   at a reconfiguration) *)
+Definition spec_run (c : cfgR) (hist : list eventR) : sstate := frun spec_event c hist (mkS [] [] (c_geom0 c)).
 
 (* ================================================================== kernel lemmas *)
 
@@ -208,20 +211,21 @@ Proof.
     destruct (nltb Rops (n0 Rops) (dot4 Rops x c)); apply Rle_0_sqr.
 Qed.
 
-Lemma sqdev_R vs : forall x c a, sqdev Rops vs x c a = a + Qexp vs x c.
+Lemma sqdev_R vs : forall sg x c a, sqdev Rops vs sg x c a = a + Qexp vs sg x c.
 Proof.
-  induction vs as [|v vs IH]; intros x c a.
+  induction vs as [|v vs IH]; intros sg x c a.
   - cbn [sqdev Qexp]. lra.
-  - destruct x as [|xi x]; [cbn [sqdev Qexp]; lra|].
+  - destruct sg as [|si sg]; [cbn [sqdev Qexp]; lra|].
+    destruct x as [|xi x]; [cbn [sqdev Qexp]; lra|].
     destruct c as [|ci c]; [cbn [sqdev Qexp]; lra|].
     cbn [sqdev Qexp]. rewrite IH, vdist2_R. cbn [nadd ndiv nmul Rops]. lra.
 Qed.
 
-Lemma kval_R vs x c : kval Rops vs x c = gauss (Qexp vs x c).
+Lemma kval_R vs sg x c : kval Rops vs sg x c = gauss (Qexp vs sg x c).
 Proof.
   unfold kval, gauss. rewrite sqdev_R. unfold nhalf; cbn.
-  replace (0 + Qexp vs x c) with (Qexp vs x c) by lra.
-  unfold Rltb. destruct (Rlt_dec 23 (Qexp vs x c)); reflexivity.
+  replace (0 + Qexp vs sg x c) with (Qexp vs sg x c) by lra.
+  unfold Rltb. destruct (Rlt_dec 23 (Qexp vs sg x c)); reflexivity.
 Qed.
 
 Lemma henergy_R vs x h : henergy Rops vs x h = K vs h x.
@@ -234,27 +238,29 @@ Proof.
   - rewrite IH, henergy_R. cbn. lra.
 Qed.
 
-Lemma Qexp_nonneg vs : forall x c, 0 <= Qexp vs x c.
+Lemma Qexp_nonneg vs : forall sg x c, 0 <= Qexp vs sg x c.
 Proof.
-  induction vs as [|v vs IH]; intros x c; [cbn [Qexp]; lra|].
+  induction vs as [|v vs IH]; intros sg x c; [cbn [Qexp]; lra|].
+  destruct sg as [|si sg]; [cbn [Qexp]; lra|].
   destruct x as [|xi x]; [cbn [Qexp]; lra|]. destruct c as [|ci c]; [cbn [Qexp]; lra|].
-  cbn [Qexp]. specialize (IH x c). pose proof (D_nonneg v xi ci) as HD.
-  destruct (Req_dec (v_sigma v * v_sigma v) 0) as [E|E].
+  cbn [Qexp]. specialize (IH sg x c). pose proof (D_nonneg v xi ci) as HD.
+  destruct (Req_dec (si * si) 0) as [E|E].
   - rewrite E. unfold Rdiv. rewrite Rinv_0. lra.
-  - assert (0 < v_sigma v * v_sigma v) by (pose proof (Rle_0_sqr (v_sigma v)); unfold Rsqr in *; lra).
-    assert (0 <= D v xi ci / (v_sigma v * v_sigma v)) by (apply Rmult_le_pos; [lra|left; apply Rinv_0_lt_compat; lra]).
+  - assert (0 < si * si) by (pose proof (Rle_0_sqr si); unfold Rsqr in *; lra).
+    assert (0 <= D v xi ci / (si * si)) by (apply Rmult_le_pos; [lra|left; apply Rinv_0_lt_compat; lra]).
     lra.
 Qed.
 
 Lemma gauss_far q : 23 < q -> gauss q = 0.
 Proof. intros H. unfold gauss. destruct (Rlt_dec 23 q); [reflexivity|lra]. Qed.
 
-Lemma K_far vs h x : 23 < Qexp vs x (h_c h) -> K vs h x = 0.
+Lemma K_far vs h x : 23 < Qexp vs (h_s h) x (h_c h) -> K vs h x = 0.
 Proof. intros H. unfold K. rewrite gauss_far by exact H. ring. Qed.
-Lemma Fk_far vs h x k j : 23 < Qexp vs x (h_c h) -> Fk vs h x k j = 0.
+Lemma Fk_far vs h x k j : 23 < Qexp vs (h_s h) x (h_c h) -> Fk vs h x k j = 0.
 Proof.
   intros H. unfold Fk. rewrite gauss_far by exact H.
-  destruct (nth_error vs k); [|reflexivity]. destruct (nth_error x k); [|reflexivity].
+  destruct (nth_error vs k); [|reflexivity]. destruct (nth_error (h_s h) k); [|reflexivity].
+  destruct (nth_error x k); [|reflexivity].
   destruct (nth_error (h_c h) k); [|reflexivity]. ring.
 Qed.
 
@@ -287,9 +293,10 @@ Qed.
 Lemma vzero_length (v : varR) : length (vzero Rops v) = dim v.
 Proof. unfold vzero, dim. destruct (v_kind v); reflexivity. Qed.
 
-Lemma fterm_length vs x c wk k : (length (fterm Rops vs x c wk k) <= length (fzero Rops vs k))%nat.
+Lemma fterm_length vs sg x c wk k : (length (fterm Rops vs sg x c wk k) <= length (fzero Rops vs k))%nat.
 Proof.
   unfold fterm, fzero. destruct (nth_error vs k) as [v|]; [|cbn; lia].
+  destruct (nth_error sg k); [|cbn; lia].
   destruct (nth_error x k); [|cbn; lia]. destruct (nth_error c k); [|cbn; lia].
   rewrite map_length, vlgrad_length, vzero_length. lia.
 Qed.
@@ -299,27 +306,28 @@ Proof.
   induction l as [|a l IH]; intros j d d' H; destruct j; cbn [map nth]; auto.
 Qed.
 
-Lemma fterm_nth vs x c wk k j :
-  nth j (fterm Rops vs x c wk k) 0 =
-  match nth_error vs k, nth_error x k, nth_error c k with
-  | Some v, Some xi, Some ci => wk * (nth j (Dgrad v xi ci) 0 / (2 * (v_sigma v * v_sigma v)))
-  | _, _, _ => 0
+Lemma fterm_nth vs sg x c wk k j :
+  nth j (fterm Rops vs sg x c wk k) 0 =
+  match nth_error vs k, nth_error sg k, nth_error x k, nth_error c k with
+  | Some v, Some si, Some xi, Some ci => wk * (nth j (Dgrad v xi ci) 0 / (2 * (si * si)))
+  | _, _, _, _ => 0
   end.
 Proof.
   unfold fterm. destruct (nth_error vs k) as [v|]; [|destruct j; reflexivity].
+  destruct (nth_error sg k) as [si|]; [|destruct j; reflexivity].
   destruct (nth_error x k) as [xi|]; [|destruct j; reflexivity].
   destruct (nth_error c k) as [ci|]; [|destruct j; reflexivity].
   rewrite vlgrad_R.
   rewrite nth_map_default with (d := 0) by (cbn [nmul Rops]; ring).
   unfold nhalf. cbn [nmul ndiv n1 nofZ Rops]. unfold Rdiv.
-  destruct (Req_dec (v_sigma v * v_sigma v) 0) as [E|E].
+  destruct (Req_dec (si * si) 0) as [E|E].
   - rewrite E. rewrite Rmult_0_r, !Rinv_0. ring.
   - rewrite Rinv_mult. field. intros Z0. apply E. rewrite Z0. ring.
 Qed.
 
 Lemma hforce_length vs x k f h : length (hforce Rops vs x k f h) = length f.
 Proof.
-  unfold hforce. destruct (neqb Rops (kval Rops vs x (h_c h)) (n0 Rops)); [reflexivity|apply vadd_length].
+  unfold hforce. destruct (neqb Rops (kval Rops vs (h_s h) x (h_c h)) (n0 Rops)); [reflexivity|apply vadd_length].
 Qed.
 
 Lemma hills_force_length vs x k hs : forall f, length (hills_force Rops vs x k hs f) = length f.
@@ -332,11 +340,11 @@ Lemma hforce_R vs x k f h j : length f = length (fzero Rops vs k) ->
   nth j (hforce Rops vs x k f h) 0 = nth j f 0 + Fk vs h x k j.
 Proof.
   intros Hl. unfold hforce, Fk. rewrite kval_R. cbn [neqb Rops n0].
-  unfold Reqb'. destruct (Req_EM_T (gauss (Qexp vs x (h_c h))) 0) as [E|E].
-  - rewrite E. destruct (nth_error vs k); [|ring]. destruct (nth_error x k); [|ring].
+  unfold Reqb'. destruct (Req_EM_T (gauss (Qexp vs (h_s h) x (h_c h))) 0) as [E|E].
+  - rewrite E. destruct (nth_error vs k); [|ring]. destruct (nth_error (h_s h) k); [|ring]. destruct (nth_error x k); [|ring].
     destruct (nth_error (h_c h) k); unfold Rdiv; ring.
   - rewrite vadd_nth by (rewrite Hl; apply fterm_length).
-    rewrite fterm_nth. destruct (nth_error vs k); [|ring]. destruct (nth_error x k); [|ring].
+    rewrite fterm_nth. destruct (nth_error vs k); [|ring]. destruct (nth_error (h_s h) k); [|ring]. destruct (nth_error x k); [|ring].
     destruct (nth_error (h_c h) k); [|ring]. unfold hweight. cbn [nmul n1 Rops]. unfold Rdiv. ring.
 Qed.
 
